@@ -152,7 +152,7 @@ pub fn spec(id: &str) -> Option<HistorySpec> {
                 thorough_cases: 150_000,
                 thorough_max_ops: 300,
                 termination: true,
-                rule: "part (i): every operation of the history engine including all three descriptors under every config; part (ii)/(iii): 1-4 threads of 20-70 generated ops each (puts of 58-308 B, batches, deletes, gets, scans, flushes, compact_range(all)) on a 512/700 byte memtable with 400 byte files so that the memtable-full wait, the L0 slowdown and the L0 stop are reached, the database being dropped as soon as the threads finish, i.e. while background work is pending; a second campaign of the same shape adds 1-3 directives that hold the background thread for 10-60 ms at compaction.step / manifest.before_append / flush.before_build / gc.before_delete (so that memtable rotations and flushes happen inside an in-flight compaction), a fifth of its cases being close races (the background thread is held at worker.tasks_drained until the clients are done and lingers 2-40 ms so that it resumes while the database is being closed with a freshly scheduled task unprocessed) and a fifth being structured: one client builds a layout from small flushes over key groups (files pushed down to levels 1-2 with gaps between them) and compacts everything while a second, delayed client fills the memtable and the background thread is held inside that compaction; part (iv): a sample of single-fault runs (C08's engine) judged for termination only. A call is declared non-returning only if neither the filesystem nor any hook point moved for 20 s (2 s once a database thread is known to have panicked); any panic on a raindb-* thread of an open database or in a public call is a violation. Non-trivial = the case reached a memtable-full wait, the L0 slowdown or stop trigger, or the Stats descriptor (part iv: the armed run completed); distinct by case hash",
+                rule: "part (i): every operation of the history engine including all three descriptors under every config; part (ii)/(iii): 1-4 threads of 20-70 generated ops each (puts of 58-308 B, batches, deletes, gets, scans, flushes, compact_range(all)) on a 512/700 byte memtable with 400 byte files so that the memtable-full wait, the L0 slowdown and the L0 stop are reached, the database being dropped as soon as the threads finish, i.e. while background work is pending; a second campaign of the same shape adds 1-3 directives that hold the background thread for 10-60 ms at compaction.step / manifest.before_append / flush.before_build / gc.before_delete (so that memtable rotations and flushes happen inside an in-flight compaction), a fifth of its cases being close races (the background thread is held at worker.tasks_drained until the clients are done and lingers 2-40 ms so that it resumes while the database is being closed with a freshly scheduled task unprocessed) a sixth being level-0 piles (a preloaded WAL of 30-120 puts is replayed through a 512-byte memtable into a dozen or more level-0 files and the background thread is held inside the first compaction while the clients write, so that writers meet the level-0 stop trigger) and a sixth being structured: one client builds a layout from small flushes over key groups (files pushed down to levels 1-2 with gaps between them) and compacts everything while a second, delayed client fills the memtable and the background thread is held inside that compaction; part (iv): a sample of single-fault runs (C08's engine) judged for termination only. A call is declared non-returning only if neither the filesystem nor any hook point moved for 20 s (2 s once a database thread is known to have panicked); any panic on a raindb-* thread of an open database or in a public call is a violation. Non-trivial = the case reached a memtable-full wait, the L0 slowdown or stop trigger, or the Stats descriptor (part iv: the armed run completed); distinct by case hash",
             })
         }
         _ => None,
